@@ -207,7 +207,7 @@ pub fn worker(ctx: &Ctx, res: &mut ShardResult) {
                 Err(e) => {
                     res.count(&format!("rejected_{:?}", e.kind), 1);
                     if e.offset > src.len() { res.violation("error-offset-outside-source", format!("query {:?}: {:?} offset {} > {}", src, e.kind, e.offset, src.len()), case_json(ql.name, &src, b"")); }
-                    if e.kind != QueryErrorKind::Structure { res.violation("ENGINE-family-query-not-wellformed", format!("query {:?} rejected with {:?}: {}", src, e.kind, e.message), case_json(ql.name, &src, b"")); continue; }
+                    if e.kind != QueryErrorKind::Structure { res.violation("wellformed-query-rejected", format!("query {:?} (syntactically valid, names from the grammar) rejected with {:?}: {}", src, e.kind, e.message), case_json(ql.name, &src, b"")); continue; }
                     if !asserted { continue; }
                     // an impossible pattern must not match any error-free tree
                     for (text, _, xt, clean) in &trees {
